@@ -161,3 +161,8 @@ impl<T: Elem> OutCells for Vec<(T, T, T)> {
         self.iter().flat_map(|(a, b, c)| [a.dec(), b.dec(), c.dec()]).collect()
     }
 }
+
+/// (defined here, outside the tevec prelude, which shadows Iterator::any/all/sum/max/count)
+pub fn has_null(x: &[X]) -> bool {
+    x.iter().any(|v| v.is_none())
+}
